@@ -2,7 +2,7 @@
   S3 — no lost wake-ups, the per-primitive part: what a complete signal (observers included) guarantees for the front
   waiter, and how a grant whose waiter left for another reason is passed on.
 -/
-import CimbaModel.Sim.S3GuardOps
+import CimbaModel.Sim.S3Cond
 
 namespace CimbaModel.Sim.S3
 open CimbaModel CimbaModel.Sim CimbaModel.Event CimbaModel.Generated CimbaModel.KPQ
@@ -28,12 +28,12 @@ theorem guardSignal_grants {fuel : Nat} {w : World} {g : Nat} {gd : Guard} (hg :
   obtain ⟨hmin, _, htrue⟩ := (frontStep_spec w g gd hwf).2 hpos
   obtain ⟨q', _, hwf', hperm, heq⟩ := htrue hd
   have hrel1 := frontStep_rel hg hall
-  have hw' : w' = gd.observers.foldl (fun w o => guardSignal fuel w o) (frontStep w g gd) := by
+  have hw' : w' = gd.observers.foldl (fun w o => fwdSignal fuel w o) (frontStep w g gd) := by
     show guardSignal (fuel + 1) w g = _
     rw [guardSignal_succ, hg]
   have hrel2 : SigRel (frontStep w g gd) w' := by
     rw [hw']
-    exact foldl_sigRel _ (fun w o hw => guardSignal_rel fuel w o hw) _ _ hrel1.wf
+    exact foldl_sigRel _ (fun w o hw => guardSignalF_rel fuel true w o hw) _ _ hrel1.wf
   have hg1 : (frontStep w g gd).guards[g]? = some { gd with q := q' } := by
     rw [heq]; simp [grant, setGuardQ_guards_get, hg]
   obtain ⟨gd', hg', _, _, _, _, hsub⟩ := hrel2.guards g _ hg1
@@ -54,7 +54,7 @@ theorem guardSignal_grants {fuel : Nat} {w : World} {g : Nat} {gd : Guard} (hg :
     changes nothing (only the observers are signalled) -/
 theorem guardSignal_no_grant {fuel : Nat} {w : World} {g : Nat} {gd : Guard} (hg : w.guards[g]? = some gd) (hwf : GWF gd.q)
     (h : gd.q.count = 0 ∨ evalDemand w (demandOf gd (gd.q.tag 1).key) = false) :
-    guardSignal (fuel + 1) w g = gd.observers.foldl (fun w o => guardSignal fuel w o) w := by
+    guardSignal (fuel + 1) w g = gd.observers.foldl (fun w o => fwdSignal fuel w o) w := by
   rw [guardSignal_succ, hg]
   simp only
   have hs := frontStep_spec w g gd hwf
